@@ -179,7 +179,7 @@ impl<'r> Renderer<'r> {
     fn sep(&mut self) -> &'static str {
         if self.comment_seps && self.r.chance(1, 3) {
             // a comment as the only separator
-            return *self.r.pick(&["/**/", "/* c */", "// c\n", "/* x */ ", " /* y */", "//\n", "/* `endif */"]);
+            return *self.r.pick(&["/**/", "/* c */", "// c\n", "/* x */ ", " /* y */", "//\n", "/* `endif */", "// c \n", " // d\t \n"]);
         }
         if self.per_line {
             *self.r.pick(&["\n", "\n", "\n\n", " \n", "\n  "])
